@@ -189,7 +189,8 @@ func C10(c *Ctx) {
 		if fn == nil {
 			continue
 		}
-		for _, f := range core.WithClosures(fn) {
+		for _, rf := range c.ledgerRegion(fn) {
+			f := rf.fn
 			for _, call := range core.Calls(f) {
 				if core.CalleeName(call) != "crypto/sha256.Sum256" {
 					continue
@@ -229,7 +230,26 @@ func C10(c *Ctx) {
 						}
 						return rng != nil && core.Mentions(cc.Common().Args[0], func(v ssa.Value) bool { return sameSliceVar(v, rng) })
 					}
-					if !precedesAll(f, isSort, func(in ssa.Instruction) bool { return in == ssa.Instruction(ap) }) {
+					sorted := precedesAll(f, isSort, func(in ssa.Instruction) bool { return in == ssa.Instruction(ap) })
+					if !sorted && rng != nil && rf.via != nil {
+						// the hashing loop lives in a helper and ranges over a parameter: the caller has to hand over a sorted slice
+						if pi := paramIndex(f, rng); pi >= 0 && pi < len(rf.via.Common().Args) {
+							arg := rf.via.Common().Args[pi]
+							g := rf.via.Parent()
+							sorted = precedesAll(g, func(in ssa.Instruction) bool {
+								cc, ok := in.(ssa.CallInstruction)
+								if !ok {
+									return false
+								}
+								n := core.CalleeName(cc)
+								if n != "sort.Strings" && n != "sort.Slice" && n != "sort.Sort" && n != "sort.SliceStable" {
+									return false
+								}
+								return core.Mentions(cc.Common().Args[0], func(v ssa.Value) bool { return sameSliceVar(v, arg) })
+							}, func(in ssa.Instruction) bool { return in == ssa.Instruction(rf.via) })
+						}
+					}
+					if !sorted {
 						bad = "the loop that extends the hash input at " + c.P.Pos(ap.Pos()) + " ranges over a slice that is not sorted before the loop"
 					} else {
 						sortedLoops++
@@ -272,7 +292,15 @@ func C10(c *Ctx) {
 	if fn := c.P.Fn("internal/ledger.(*SimpleAccount).getStateJournalAndComputeHash"); fn != nil {
 		// key and value both appended in the hashing loop
 		okKV := false
-		for _, call := range core.Calls(fn) {
+		var hashCalls []ssa.CallInstruction
+		hashFn := map[ssa.CallInstruction]*ssa.Function{}
+		for _, rf := range c.ledgerRegion(fn) {
+			for _, call := range core.Calls(rf.fn) {
+				hashCalls = append(hashCalls, call)
+				hashFn[call] = rf.fn
+			}
+		}
+		for _, call := range hashCalls {
 			if core.CalleeName(call) != "crypto/sha256.Sum256" {
 				continue
 			}
@@ -293,7 +321,7 @@ func C10(c *Ctx) {
 			// every selected key contributes: the appends are executed on every iteration of the hashing loop (a key
 			// skipped because its new value is empty - a deletion - would leave the root blind to which key was deleted)
 			for _, ap := range apps {
-				if core.InLoop(ap) && !unconditionalInLoop(fn, ap) {
+				if core.InLoop(ap) && !unconditionalInLoop(hashFn[call], ap) {
 					okKV = false
 				}
 			}
@@ -576,7 +604,24 @@ func (c *Ctx) commitKeyDiscipline(rule string) {
 	}
 	n := 0
 	seen := map[string]int{}
-	for _, f := range core.WithClosures(commit) {
+	for _, rf := range c.ledgerRegion(commit) {
+		f := rf.fn
+		if rf.via != nil {
+			// code of Commit that an extract-method refactoring moved into a helper: the helper receives the batch
+			top := f
+			for top.Parent() != nil {
+				top = top.Parent()
+			}
+			takesBatch := false
+			for _, p := range top.Params {
+				if strings.HasSuffix(p.Type().String(), "storage.Batch") {
+					takesBatch = true
+				}
+			}
+			if !takesBatch {
+				continue
+			}
+		}
 		for _, call := range core.Calls(f) {
 			o := core.CalleeObj(call)
 			if o == nil || (o.Name() != "Put" && o.Name() != "Delete") {
@@ -703,4 +748,40 @@ func (c *Ctx) balanceInPlace(rule string) {
 	if nBig > 0 {
 		r.OK(rule, "big.Int destinations are fresh values", "", fmt.Sprintf("%d operations inspected", nBig))
 	}
+}
+
+// regionFn is a function of a rule's region: the anchored function itself (via == nil), one of its closures, or a
+// same-package helper it calls (via = the call that leads there; two levels).
+type regionFn struct {
+	fn  *ssa.Function
+	via ssa.CallInstruction
+}
+
+// ledgerRegion: fn, its closures, and the internal/ledger helpers it calls statically (depth 2) - an "extract
+// method" refactoring moves code of an anchored function there, and the rules follow it.
+func (c *Ctx) ledgerRegion(fn *ssa.Function) []regionFn {
+	var out []regionFn
+	seen := map[*ssa.Function]bool{}
+	var walk func(f *ssa.Function, via ssa.CallInstruction, d int)
+	walk = func(f *ssa.Function, via ssa.CallInstruction, d int) {
+		if seen[f] || len(f.Blocks) == 0 {
+			return
+		}
+		seen[f] = true
+		for _, cf := range core.WithClosures(f) {
+			out = append(out, regionFn{cf, via})
+			if d >= 2 {
+				continue
+			}
+			for _, call := range core.Calls(cf) {
+				g := core.StaticCallee(call)
+				if g == nil || core.PkgOf(g) != core.PkgOf(fn) || !c.P.InModule(g) || g.Parent() != nil {
+					continue
+				}
+				walk(g, call, d+1)
+			}
+		}
+	}
+	walk(fn, nil, 0)
+	return out
 }
